@@ -52,4 +52,11 @@ C12Shape    == \A o \in Outs(store, <<>>) : ~o.panic =>
                   /\ \A i \in 1..(Len(h) - 1) : rating(h[i].id) >= rating(h[i + 1].id)
                   /\ \A rec \in SeqRange(store.records) : (\A i \in DOMAIN h : h[i].id # rec.id) =>
                         \A i \in DOMAIN h : rating(h[i].id) >= rec.rating
+\* C07 on the design: with pairwise distinct score keys and at most CapFactor x limit records, the answer does not depend on
+\* the order in which the records were added
+DistinctEvalKeys(q) == LET ks == [i \in DOMAIN store.records |-> MEval(store.records[i], q, <<>>, <<>>).key] IN NoDup(ks)
+C07Perm == \A q \in Queries :
+             (DistinctEvalKeys(q) /\ Len(store.records) <= CapFactor * store.limit) =>
+               \A p \in Permutations(DOMAIN store.records) :
+                  Outs(Rebuilt([store EXCEPT !.records = [i \in DOMAIN store.records |-> store.records[p[i]]]]), q) = Outs(Rebuilt(store), q)
 =============================================================================
